@@ -206,3 +206,88 @@ func TestUnblockRace(t *testing.T) {
 		}
 	}
 }
+
+// TestArrivalRace runs, in real time, a second arrival while the first arrival is parked between its failed
+// attempt and its backlog length check + push (holding the limiter mutex on this tree, so the second one waits):
+// the backlog must never hold more callers than its maximum and an arrival at a full backlog is refused (C12).
+func TestArrivalRace(t *testing.T) {
+	w := newNdWriter(t, filepath.Join(outDir(t), "arrival_trace.ndjson"))
+	defer w.close()
+	trace := 0
+	for rep := 0; rep < envInt("VERIF_N", 2); rep++ {
+		for _, qmax := range []int{1, 2} {
+			for _, point := range []string{"acq.enter", "acq.exit"} {
+				names := []string{"h", "a1", "a2", "a3"}
+				c := newController()
+				s := newScenario(t, c, names)
+				s.settle = func() { s.settleRealTime(3*time.Millisecond, 300*time.Millisecond) }
+				c.emit = s.ev
+				limiter.VerifPoint = nil
+				dl, busy, err := newDelegate(1, false)
+				if err != nil {
+					t.Fatal(err)
+				}
+				gl := &GatedLimiter{c: c, inner: dl}
+				reg := newRecordingRegistry()
+				s.lim = limiter.NewQueueBlockingLimiterFromConfig(gl, limiter.QueueLimiterConfig{Ordering: limiter.OrderingFIFO, MaxBacklogSize: qmax, MaxBacklogTimeout: -1, BacklogEvictDoneCtx: true, MetricRegistry: reg})
+				s.extra = func() J {
+					q, _ := reg.GaugeByID(core.MetricQueueSize)
+					return J{"busy": busy(), "gauge": int(dl.VerifInFlight()), "q": q, "t": 0}
+				}
+				cfg := wrapCfg{Kind: "queue", Ctor: "arrival-race/" + point, Limit: 1, QMax: qmax, QTimeout: 0, EvictCtx: true, Ordering: "fifo", Expect: "fifo", Procs: names}
+				w.write(J{"ev": "Reset", "trace": trace, "cfg": cfg, "obs": s.observe()})
+				i := 0
+				do := func(st schedStep) bool {
+					if err := s.apply(st); err != nil {
+						return false
+					}
+					i++
+					w.write(J{"ev": "Step", "trace": trace, "i": i, "step": st, "evs": s.events(), "obs": s.observe()})
+					return true
+				}
+				do(schedStep{A: "start", P: "h", Call: "acquire"})
+				c.mu.Lock()
+				c.enabled[point] = true
+				c.mu.Unlock()
+				for _, n := range names[1:] {
+					do(schedStep{A: "start", P: n, Call: "acquire"})
+				}
+				time.Sleep(2 * time.Millisecond)
+				c.mu.Lock()
+				c.enabled = map[string]bool{}
+				c.mu.Unlock()
+				for n := 0; n < 12; n++ {
+					pm := c.parkedMap()
+					if len(pm) == 0 {
+						break
+					}
+					keys := sortedKeys(pm)
+					do(schedStep{A: "pass", P: keys[0], Gate: pm[keys[0]]})
+				}
+				do(schedStep{A: "start", P: "h", Call: "release", Outcome: "success"})
+				for round := 0; round < 4; round++ {
+					progressed := false
+					for _, n := range names {
+						if s.procs[n].state == "granted" {
+							do(schedStep{A: "start", P: n, Call: "release", Outcome: "success"})
+							progressed = true
+						}
+					}
+					if !progressed {
+						break
+					}
+				}
+				for _, n := range names[1:] {
+					if s.procs[n].state == "calling" {
+						do(schedStep{A: "cancel", P: n})
+					}
+				}
+				w.write(J{"ev": "End", "trace": trace, "i": i + 1, "obs": s.observe()})
+				for _, n := range names {
+					s.procs[n].cancel()
+				}
+				trace++
+			}
+		}
+	}
+}
